@@ -11,7 +11,10 @@ import ScrapliModel.Regex.Basic
         node   := e | E | c<hex bitmap> | C i j | A i j | N i j | n i | s i | r i m n
                   (emp, eps, cls, cat, alt, and, not, star, rep)
         roots  := i i i …
-    nat_rows% "a b c;d e f;…"  : List (List (List Nat))   -- one row per `;` group (decimal), rows in chunks of 32
+    nat_rows% "<classes>|<rows>" : List (List (List Nat))   -- rows in chunks of 32
+        classes := bitmap bitmap …            (decimal)
+        rows    := row;row;…   row := c k j c k j …   (representative, class INDEX, target state);
+                   the elaborated row holds the class bitmap itself: [c, classes[k], j, …]
 -/
 namespace Scrapli.Regex
 open Lean Elab Term Meta
@@ -73,8 +76,32 @@ elab "re_dag% " s:str : term => do
 elab "nat_rows% " s:str : term => do
   let nat := Lean.mkConst ``Nat
   let listNat := mkApp (Lean.mkConst ``List [Level.zero]) nat
-  let rows := (s.getString.splitOn ";").filter (· ≠ "") |>.map fun row =>
-    mkListLit nat (((row.splitOn " ").filter (· ≠ "")).map (fun t => mkNatLit t.toNat!))
-  return mkListLit (mkApp (Lean.mkConst ``List [Level.zero]) listNat) ((chunk32 rows).map (mkListLit listNat))
+  match s.getString.splitOn "|" with
+  | [clsTxt, rowsTxt] =>
+    -- class bitmaps are written once and referred to by index; each becomes ONE shared literal
+    let classes : Array Expr := ((clsTxt.splitOn " ").filter (· ≠ "")).toArray.map (fun t => mkNatLit t.toNat!)
+    let mut small : Std.HashMap String Expr := {}
+    let mut rows : Array Expr := #[]
+    for row in rowsTxt.splitOn ";" do
+      if row == "" then continue
+      let toks := ((row.splitOn " ").filter (· ≠ "")).toArray
+      if toks.size % 3 != 0 then throwError "nat_rows%: row length not a multiple of 3"
+      let mut xs : Array Expr := #[]
+      for i in [0:toks.size] do
+        let t := toks[i]!
+        if i % 3 == 1 then
+          match classes[t.toNat!]? with
+          | some e => xs := xs.push e
+          | none => throwError "nat_rows%: bad class index {t}"
+        else
+          match small[t]? with
+          | some e => xs := xs.push e
+          | none =>
+            let e := mkNatLit t.toNat!
+            small := small.insert t e
+            xs := xs.push e
+      rows := rows.push (mkListLit nat xs.toList)
+    return mkListLit (mkApp (Lean.mkConst ``List [Level.zero]) listNat) ((chunk32 rows.toList).map (mkListLit listNat))
+  | _ => throwError "nat_rows%: expected <classes>|<rows>"
 
 end Scrapli.Regex
